@@ -6,17 +6,19 @@ package mqtt
 // bookkeeping (C08). Comments only; see verif_contracts_codec.go.
 
 //@ func (*Message).clone
+//@   params m
 //@   mode int
 //@   props C20
 //@   pure
 //@   requires m != nil
 //@   ensures[C14,C20] result != nil && fresh(result)
-//@   ensures[C04,C05,C20] same_fields: result.Topic == m.Topic && result.QoS == m.QoS && result.Retain == m.Retain && result.Dup == m.Dup && result.ID == m.ID
+//@   ensures[C04,C05,C15,C20] same_fields: result.Topic == m.Topic && result.QoS == m.QoS && result.Retain == m.Retain && result.Dup == m.Dup && result.ID == m.ID
 //@   ensures[C04,C05,C20] same_payload: seqEq(seqOf(result.Payload), seqOf(m.Payload))
 //@   ensures[C20] len(m.Payload) > 0 ==> fresh(result.Payload)
 //@   ensures[C20] own_array: !sameArray(result.Payload, m.Payload)
 
 //@ func (*BaseClient).newID
+//@   params c
 //@   mode bv
 //@   props C15
 //@   requires c != nil
@@ -63,6 +65,7 @@ package mqtt
 //@ end
 
 //@ func newTopicFilter
+//@   params filter
 //@   mode int
 //@   props C14
 //@   pure
@@ -71,6 +74,7 @@ package mqtt
 //@   ensures[C14] parts: result1 == nil ==> sameStrings(result0, splitOf(filter))
 
 //@ func (topicFilter).Match
+//@   params f topic
 //@   mode int
 //@   props C14
 //@   pure
@@ -88,6 +92,7 @@ package mqtt
 //@ end
 
 //@ func (subscriptions).applyTo
+//@   params s d
 //@   mode int
 //@   props C08
 //@   requires d != nil && !sameArray(*d, s)
@@ -95,9 +100,12 @@ package mqtt
 //@   let d0 []Subscription = *d
 //@   ensures[C01,C08] appended: len(*d) == len(d0)+len(s) && forall(0, len(d0), func(i int) bool { return (*d)[i] == d0[i] }) &&
 //@        forall(0, len(s), func(i int) bool { return (*d)[len(d0)+i] == s[i] })
+//@   note the list keeps storage of its own: the caller's slice is handed to Subscribe afterwards, which writes the granted QoS into it
+//@   ensures[C01,C08] own_storage: len(s) > 0 ==> !sameArray(*d, s)
 //@   ensures[C08] nodup: nodupTopics(d0, len(d0)) ==> nodupTopics(*d, len(*d))
 
 //@ func (unsubscriptions).applyTo
+//@   params s d
 //@   mode int
 //@   props C08
 //@   requires d != nil
@@ -118,12 +126,14 @@ package mqtt
 // ---- statistics getters (C10: access discipline only) ----
 
 //@ func (*BaseClient).Stats
+//@   params c
 //@   mode int
 //@   props C10
 //@   requires c != nil
 //@   assigns nothing
 
 //@ func (*RetryClient).Stats
+//@   params c
 //@   mode int
 //@   props C10
 //@   requires c != nil
@@ -132,6 +142,7 @@ package mqtt
 // ---- ServeMux / ServeAsync dispatch (C14, C20) ----
 
 //@ func (*ServeMux).Handle
+//@   params m filter handler
 //@   mode int
 //@   props C14
 //@   requires m != nil && handler != nil
@@ -144,6 +155,7 @@ package mqtt
 //@   ensures[C14] order_kept: forall(0, ssLen(old), func(i int) bool { return m.handlers[i].handler == ssAt(old, i).handler && sameSlice([]string(m.handlers[i].filter), []string(ssAt(old, i).filter)) })
 
 //@ func (*ServeMux).Serve
+//@   params m message
 //@   mode int
 //@   props C14 C20
 //@   requires m != nil && message != nil
@@ -162,6 +174,7 @@ package mqtt
 //@        evArg[*Message]("Handler.Serve", 0, 1) == evRet[*Message]("(*Message).clone", 0, 0) && evArg[*Message]("Handler.Serve", 0, 1) != message
 
 //@ func (*ServeAsync).Serve
+//@   params m message
 //@   mode int
 //@   props C20
 //@   requires m != nil && message != nil && m.Handler != nil
